@@ -35,11 +35,17 @@ class C20(E1Prop):
                            'delete_queues', 'force_merge']}
     NOPS = (8, 20)
     EXPECTED_PROBES = ['create-branch-success', 'delete-branch-success',
-                      'rebuild-with-queued-prs', 'refusal']
+                      'rebuild-with-queued-prs', 'refusal',
+                      'admin-fault-variant']
+
+    def gen_config(self, rng, tier):
+        self.tier = tier
+        return super().gen_config(rng, tier)
 
     def begin(self, w, rng):
         super().begin(w, rng)
         self.queue_entry = []   # PR ids in the order they were queued
+        self.nfp = 0
 
     def next_op(self, w, rng, step, nsteps):
         if step == 0:
@@ -94,10 +100,77 @@ class C20(E1Prop):
                     o['dt'] = rng.choice([1, 5, 30])
                 self.script = seq
         if getattr(self, 'script', None):
-            return self.script.pop(0)
-        return self.gen.next(w)
+            op = self.script.pop(0)
+        else:
+            op = self.gen.next(w)
+        maxfp = 2 if getattr(self, 'tier', 'quick') == 'quick' else 5
+        if op['op'] == 'api' and not op.get('queue_only') and \
+                op.get('job') in ('delete_branch', 'create_branch') and \
+                self.nfp < maxfp and rng.random() < 0.6:
+            # the same admin job, also tried with the remote refusing one of
+            # the refs it publishes / somebody publishing the tag first
+            self.nfp += 1
+            op = dict(op, op='faultprobe', pick=rng.randrange(10 ** 9),
+                      nfaults=3 if maxfp == 2 else 0)
+        return op
 
-    def check_job(self, w, rec):
+    # ------------------------------------------------------------------
+    def apply(self, w, op):
+        if op['op'] != 'faultprobe':
+            return ops.apply_op(w, op)
+        import random
+        ev = {'k': 'api', 'job': op['job'], 'kwargs': op.get('kwargs') or {},
+              'json': op.get('json') or {}}
+
+        def clean(w_):
+            recs = w_.deliver(dict(ev))
+            return recs[0]['mut'] if recs else []
+        if 'faults' not in op:
+            mut = w.fork_variant(clean)
+            space = []
+            for m in mut:
+                if m['kind'] != 'push':
+                    continue
+                for ref in sorted(m.get('changed') or {}):
+                    if ref.startswith('tag:'):
+                        space.append({'kind': 'reject', 'push': m['j'],
+                                      'ref': 'refs/tags/*'})
+                        space.append({
+                            'kind': 'thirdparty', 'push': m['j'],
+                            'action': {'do': 'push_tag', 'name': ref[4:]}})
+                    else:
+                        space.append({'kind': 'reject', 'push': m['j'],
+                                      'ref': 'refs/heads/' + ref})
+            r = random.Random(op['pick'])
+            if op.get('nfaults') and len(space) > op['nfaults']:
+                space = r.sample(space, op['nfaults'])
+            op['faults'] = space
+        for plan in list(op['faults']):
+            def run(w_, plan=plan):
+                f0 = dict(w_.stats['faults'])
+                w_.on_job_done = None
+                recs = w_.deliver(dict(ev), plan=dict(plan))
+                for rec in recs[:1]:
+                    self.check_job(w_, rec, faulted=True)
+                return {'fired': bool(recs and recs[0].get('fired')),
+                        'faults': {k: v - f0.get(k, 0)
+                                   for k, v in w_.stats['faults'].items()
+                                   if v - f0.get(k, 0)},
+                        'status': recs[0]['status'] if recs else None}
+            try:
+                res = w.fork_variant(run)
+            except Violation as v:
+                op['faults'] = [plan]
+                v.detail['fault'] = plan
+                raise
+            if res['fired']:
+                w.probe('admin-fault-variant')
+                w.probe('admin-fault:%s' % res['status'])
+            for k, n in res['faults'].items():
+                w.stats['faults'][k] = w.stats['faults'].get(k, 0) + n
+        return ops.apply_op(w, dict(op, op='api'))
+
+    def check_job(self, w, rec, faulted=False):
         before, after = rec['refs_before'], rec['refs_after']
         if rec['status'] == 'Queued':
             for r in after:
@@ -117,6 +190,26 @@ class C20(E1Prop):
         # (1) a refusal leaves refs and tags byte-identical
         if status in REFUSALS:
             w.probe('refusal')
+            if faulted:
+                # with the remote misbehaving, what must be untouched are
+                # the destination branches and the tags (an empty q/<v>
+                # branch dropped before the refusal is rebuilt on demand);
+                # what a third party pushed meanwhile is not the job's doing
+                theirs = set('tag:' + t['name']
+                             for t in rec.get('third_party') or []
+                             if t.get('do') == 'push_tag')
+                if kind == 'delete_branch':
+                    # the archive tag is published before the deletion on
+                    # purpose: a refused deletion leaves the tag behind
+                    new_tags = [r for r in after if r.startswith('tag:') and
+                                r not in before and r not in theirs]
+                    if new_tags:
+                        w.probe('archive-tag-left-without-deletion')
+                    theirs |= set(new_tags)
+                before = {r: s for r, s in before.items()
+                          if not r.startswith('q/') and r not in theirs}
+                after = {r: s for r, s in after.items()
+                         if not r.startswith('q/') and r not in theirs}
             if before != after:
                 diff = {r: [before.get(r), after.get(r)]
                         for r in set(before) | set(after)
@@ -236,8 +329,18 @@ class C20(E1Prop):
             return
         qp = queued_prs(before)
         if status not in REFUSALS and status != 'JobSuccess' and qp:
+            why = ''
+            m = re.match(r'^stabilization/(\d+\.\d+\.\d+)$',
+                         str(rec['details'] or ''))
+            if status == 'CheckoutFailedException' and m and \
+                    ('hotfix/' + m.group(1)) in before and \
+                    not any(r.startswith('tag:%s.' % m.group(1))
+                            for r in before):
+                # a hotfix branch without any X.Y.Z.N tag: its queue is
+                # named q/X.Y.Z, which reads as a stabilization queue
+                why = ':hotfix-without-revision-tag'
             raise Violation(
-                'C20', 'C20:rebuild-queues-crashed:%s' % status,
+                'C20', 'C20:rebuild-queues-crashed:%s%s' % (status, why),
                 'rebuild-queues ended with %s (%s) instead of rebuilding: '
                 'the %d queued pull requests %s were not re-submitted; '
                 'q/* branches before: %s' % (
